@@ -350,3 +350,8 @@ func Perturb() {
 		time.Sleep(time.Duration(n%400) * time.Microsecond)
 	}
 }
+
+// SetJSONBody declares, under the engine, what the next json.Decoder.Decode
+// yields (present=false: empty body). Natively it does nothing: the harness
+// hands the handler a real body with the JSON text of the same value.
+func SetJSONBody(v any, present bool) {}
